@@ -134,7 +134,7 @@ def baseline_text(rel):
 
 def run_one(job):
     k, pid, rel, line, kind, new = job
-    sc = "/tmp/mut/%d" % k
+    sc = "/tmp/mut%s/%d" % (os.environ.get("MUT_TAG", ""), k)
     shutil.rmtree(sc, ignore_errors=True)
     os.makedirs(sc + "/out")
     for d in ("src", "nextflow", "tests"):
@@ -212,7 +212,7 @@ def main():
         rel, new = texts[r["k"]]
         d = list(difflib.unified_diff(baseline_text(rel).splitlines(), new.splitlines(), lineterm="", n=1))
         print("--- NOT CAUGHT %s %s:%s %s\n%s" % (r["property"], rel, r["line"], r["kind"], "\n".join(d[2:12])))
-    shutil.rmtree("/tmp/mut", ignore_errors=True)
+    shutil.rmtree("/tmp/mut" + os.environ.get("MUT_TAG", ""), ignore_errors=True)
 
 
 main()
